@@ -19,7 +19,7 @@ func (c16) ID() string { return "C16" }
 func (c16) Meta(tier string) engine.Meta {
 	return engine.Meta{
 		Level: "model_checking",
-		Rule: "(a) for EVERY documented overload (polymorphic ones instantiated over 5 element types / 2 map shapes) and EVERY parameter position, the call with an optional-typed argument maybe[T] in that position — as a variable (present and absent), as an object field, as a list element and as a map value — all other arguments ordinary; (b) 40 direct uses of optionals (member / subscript / operators / conditions / nesting / get with right and wrong defaults); (c) all well-typed programs of depth <= 2 (one nested operand) over host structs whose pointer, slice and map fields are nil / non-nil, tagged `,maybe` and untagged (16 environments; the grammar follows the types each environment really has). Oracle: compile-time acceptance equals the reference checker's (an optional is accepted only by a bare type variable or by get(maybe[a], a)); get yields the payload when present and the default otherwise; no accepted program fails at run time on any back end except where the reference predicts a documented partial-operation failure. non-trivial = every case",
+		Rule: "(a) for EVERY documented overload (polymorphic ones instantiated over 5 element types / 2 map shapes) and EVERY parameter position, the call with an optional-typed argument maybe[T] in that position — as a variable (present and absent), as an object field, as a list element and as a map value — all other arguments ordinary; (b) 40 direct uses of optionals (member / subscript / operators / conditions / nesting / get with right and wrong defaults); (c) containers (slices, maps, nested) of structs whose pointer field is present in some elements and absent in others — inconsistent data that must be refused, never evaluated with an absent value standing for a number — and one Callable invoked with a present and then an absent pointer of the same Go type; (d) all well-typed programs of depth <= 2 (one nested operand) over host structs whose pointer, slice and map fields are nil / non-nil, tagged `,maybe` and untagged (16 environments; the grammar follows the types each environment really has). Oracle: compile-time acceptance equals the reference checker's (an optional is accepted only by a bare type variable or by get(maybe[a], a)); get yields the payload when present and the default otherwise; no accepted program fails at run time on any back end except where the reference predicts a documented partial-operation failure. non-trivial = every case",
 		Bound: "built-in arity <= 3; depth 2; 16 host environments",
 		Assumptions: []string{"reference typing rules of C05"},
 	}
@@ -121,6 +121,7 @@ func (c16) Generate(tier string, yield func(*engine.Case) bool) {
 			emit(progCase("direct-use", p, env, fmt.Sprintf("present=%v", present)))
 		}
 	}
+	c16ContainerCases(emit)
 	// (c) programs over host structs with nil / non-nil pointer, slice and map fields
 	for variant := 0; variant < 16 && ok; variant++ {
 		env := hostNilEnv(variant)
@@ -202,6 +203,18 @@ func hostNilGrammar(env real.EnvSpec) *gen.Grammar {
 }
 
 func (c16) Run(c *engine.Case) *engine.Result {
+	if len(c.Args) > 0 && c.Args[0] == "container" {
+		return runC16Container(c)
+	}
+	if len(c.Args) > 0 && c.Args[0] == "hist" {
+		r := c07History(c)
+		for i := range r.Violations {
+			if r.Violations[i].Class == "runs-on-mismatching-env" {
+				r.Violations[i].Class = "optional-consumed-without-default"
+			}
+		}
+		return r
+	}
 	d := loadProg(c)
 	h := real.StdHost()
 	p := observe(d.Term, d.Env, h, real.Backends, true)
